@@ -75,7 +75,8 @@ ShapeOK(sh) ==
     /\ (NWitKeys = 2 => sh.legacy = 1) /\ (NWitKeys = 1 => sh.legacy = 0)
     /\ sh.ts /\ sh.readback
 
-Say(kind, id, name, sig) == PrintT(<<kind, id, name, i, Ev.run, Ev.k, sig>>)
+\* one line per failing step (a string, so that TLC does not wrap it)
+Say(kind, id, name, sig) == PrintT(kind \o " " \o ToJson([id |-> id, name |-> name, i |-> i, run |-> Ev.run, k |-> Ev.k, sig |-> sig]))
 Check(id, name, ok) == ok \/ Say("FAIL", id, name, "-")
 
 MonUpdate ==
